@@ -632,4 +632,193 @@ def r7(ctx):
                   f"`{name}` is empty for an empty back-quoted name (``f(``)``); `{name}[0]` raises IndexError")
 
 
-RULES = [("C14.R1", r1), ("C14.R2", r2), ("C14.R3", r3), ("C14.R4", r4), ("C14.R5", r5), ("C14.R6", r6), ("C14.R7", r7)]
+
+# ----------------------------------------------------------------------------- R8
+R8_EXEMPT = {
+    ("utils.structured.Structured._merge", "values[0]"): "values lists are created by appending (defaultdict(list).append): never empty",
+}
+
+
+def _evidence_nonempty(test: ast.AST, name: str, need: int = 1):
+    """True if ``test`` being true implies len(name) >= need; False if it implies emptiness; None otherwise."""
+    t, neg = count_negations(test)
+    val = None
+    if isinstance(t, ast.Name) and t.id == name and need <= 1:
+        val = True
+    elif isinstance(t, ast.Compare) and len(t.ops) == 1 and isinstance(t.left, ast.Call) and dotted(t.left.func) == "len" and t.left.args \
+            and isinstance(t.left.args[0], ast.Name) and t.left.args[0].id == name and isinstance(t.comparators[0], ast.Constant) and isinstance(t.comparators[0].value, int):
+        k, op = t.comparators[0].value, t.ops[0]
+        if isinstance(op, ast.Gt) and k + 1 >= need:
+            val = True
+        elif isinstance(op, ast.GtE) and k >= need:
+            val = True
+        elif isinstance(op, ast.Eq) and k >= need:
+            val = True
+        elif isinstance(op, ast.Eq) and k == 0:
+            val = False
+        elif isinstance(op, (ast.Lt,)) and k <= need:
+            val = False
+    if val is None:
+        return None
+    return val if neg % 2 == 0 else (not val if need <= 1 or val is False else None)
+
+
+def _conjuncts(test: ast.AST):
+    return test.values if isinstance(test, ast.BoolOp) and isinstance(test.op, ast.And) else [test]
+
+
+def _disjuncts(test: ast.AST):
+    return test.values if isinstance(test, ast.BoolOp) and isinstance(test.op, ast.Or) else [test]
+
+
+def nonempty_established(P: Project, f: FunctionInfo, site: ast.AST, name: str, need: int = 1) -> bool:
+    """Is `len(name) >= need` established where ``site`` is evaluated?"""
+    # (a) earlier operand of the same boolean expression
+    n, child = P.parent(site), site
+    while n is not None and not isinstance(n, ast.stmt):
+        if isinstance(n, ast.BoolOp):
+            idx = next(i for i, v in enumerate(n.values) if v is child or id(child) in {id(x) for x in ast.walk(v)})
+            for v in n.values[:idx]:
+                e = _evidence_nonempty(v, name, need)
+                if isinstance(n.op, ast.And) and e is True:
+                    return True
+                if isinstance(n.op, ast.Or) and e is False:
+                    return True
+        if isinstance(n, ast.IfExp) and child is not n.test:
+            e = [_evidence_nonempty(c, name, need) for c in _conjuncts(n.test)]
+            if child is n.body and True in e:
+                return True
+            if child is n.orelse and any(_evidence_nonempty(d, name, need) is False for d in _disjuncts(n.test)) and len(_disjuncts(n.test)) == 1:
+                return True
+        child, n = n, P.parent(n)
+    st = n
+    # (b) enclosing if / while whose test implies it (no pop of the name in between is assumed within one test-body step)
+    m, child = P.parent(st), st
+    inner = st
+    while m is not None and not isinstance(m, (ast.FunctionDef, ast.AsyncFunctionDef, ast.Lambda)):
+        if isinstance(m, (ast.If, ast.While)):
+            in_body = any(child is x for x in m.body)
+            in_else = any(child is x for x in m.orelse)
+            if in_body and any(_evidence_nonempty(c, name, need) is True for c in _conjuncts(m.test)):
+                if not _mutated_between(m.body, inner, name):
+                    return True
+            if in_else and len(_disjuncts(m.test)) >= 1 and any(_evidence_nonempty(d, name, need) is False for d in _disjuncts(m.test)) and len(_conjuncts(m.test)) == 1:
+                return True
+        child, m = m, P.parent(m)
+    # (c) dominated by an exit guard:  if not X [or ...]: return/raise/continue/break
+    owner = P.enclosing_function(site)
+    if owner is None or isinstance(owner.node, ast.Lambda):
+        return False
+    cfg = CFG(owner.node)
+    for g in cfg.stmts():
+        if isinstance(g, ast.If) and g is not st and isinstance(g.body[-1], (ast.Return, ast.Raise, ast.Continue, ast.Break)) and not g.orelse:
+            if any(_evidence_nonempty(d, name, need) is False for d in _disjuncts(g.test)) and cfg.dominates(g, st):
+                # same block, no mutation in between
+                par = P.parent(g)
+                blk = getattr(par, "body", [])
+                for fld in ("body", "orelse", "finalbody"):
+                    if any(x is g for x in getattr(par, fld, []) or []):
+                        blk = getattr(par, fld)
+                if any(x is st or id(st) in {id(y) for y in ast.walk(x)} for x in blk) and not _mutated_between(blk, st, name, after=g):
+                    return True
+    return False
+
+
+def _mutated_between(block, upto: ast.stmt, name: str, after: Optional[ast.stmt] = None) -> bool:
+    started = after is None
+    for x in block:
+        if x is after:
+            started = True
+            continue
+        if x is upto or id(upto) in {id(y) for y in ast.walk(x)}:
+            return False
+        if started:
+            for c in ast.walk(x):
+                if isinstance(c, ast.Call) and isinstance(c.func, ast.Attribute) and isinstance(c.func.value, ast.Name) and c.func.value.id == name and c.func.attr in ("pop", "clear", "remove"):
+                    return True
+    return False
+
+
+def r8(ctx):
+    """Partial operations on local sequences anywhere on the parse path: X.pop(), X[0], X[-1], X[1] need an established length."""
+    P = ctx.project
+    cg, prev = parse_closure(P)
+    n = 0
+    for q in sorted(prev):
+        f = P.functions[q]
+        if isinstance(f.node, ast.Lambda):
+            continue
+        for x in walk_no_nested(f.node):
+            name = need = what = None
+            if isinstance(x, ast.Call) and isinstance(x.func, ast.Attribute) and x.func.attr == "pop" and isinstance(x.func.value, ast.Name) \
+                    and (not x.args or (len(x.args) == 1 and isinstance(x.args[0], (ast.Constant, ast.UnaryOp)) and norm(x.args[0]) in ("0", "-1"))):
+                name, need, what = x.func.value.id, 1, f"{x.func.value.id}.pop()"
+            elif isinstance(x, ast.Subscript) and isinstance(x.ctx, ast.Load) and isinstance(x.value, ast.Name) and norm(x.slice) in ("0", "-1", "1"):
+                name, need, what = x.value.id, (2 if norm(x.slice) == "1" else 1), norm(x)
+            if name is None:
+                continue
+            # only local sequences (assigned a list display / list() / [] in this function or an enclosing one) — not parameters of unknown type
+            if not _is_local_sequence(P, f, name):
+                continue
+            n += 1
+            ctx.look()
+            inst = f"{q.replace('formulaic.', '')}: `{what}` is applied to a sequence known to be long enough"
+            if any(q.endswith(k[0]) and what == k[1] for k in R8_EXEMPT):
+                ctx.ok("C14.R8", inst + " [argued]", f.module.line(x), trivial=True)
+                continue
+            ok = nonempty_established(P, f, x, name, need)
+            ctx.check(ok, "C14.R8", inst, f.module.line(x), ctx.construct(f, text=f"partial {what} @ {stmt_text(P.enclosing_stmt(x), 60)}"),
+                      f"`{what}` can be reached with `{name}` empty (no dominating emptiness test): IndexError would escape parsing, e.g. for a stray closing bracket")
+    ctx.floor("C14.R8", n, 15, "partial operations on local sequences")
+
+
+def _is_local_sequence(P: Project, f: FunctionInfo, name: str) -> bool:
+    g = f
+    while g is not None:
+        for nm, v, _ in assignments(g.node):
+            if nm == name and (isinstance(v, (ast.List, ast.ListComp)) or (isinstance(v, ast.Call) and dotted(v.func) in ("list", "collections.deque", "deque"))):
+                return True
+        for st in walk_no_nested(g.node):
+            if isinstance(st, ast.AnnAssign) and isinstance(st.target, ast.Name) and st.target.id == name and norm(st.annotation).startswith(("list", "List")):
+                return True
+        g = g.parent
+    return False
+
+
+# ----------------------------------------------------------------------------- R9
+def r9(ctx):
+    """The token handed to exc_for_token is never None: an Optional `.token` attribute needs an `or Token()` fallback."""
+    P = ctx.project
+    cg, prev = parse_closure(P)
+    n = 0
+    for q in sorted(prev):
+        f = P.functions[q]
+        for c in walk_no_nested(f.node):
+            if not (isinstance(c, ast.Call) and dotted(c.func) in ("exc_for_token",) and c.args):
+                continue
+            n += 1
+            ctx.look()
+            a = c.args[0]
+            inst = f"{q.replace('formulaic.', '')}: exc_for_token receives a token, never None"
+            ctx.check(not _may_be_none(a), "C14.R9", inst, f.module.line(c), ctx.construct(f, text=f"exc_for_token({norm(a)[:60]})"),
+                      f"`{norm(a)[:100]}` can be None (Factor.token is optional — factors created by `.`/multistage have none): exc_for_token would raise "
+                      f"AttributeError instead of the parse error")
+    ctx.floor("C14.R9", n, 10, "exc_for_token call sites")
+
+
+def _may_be_none(a: ast.AST) -> bool:
+    if isinstance(a, ast.BoolOp) and isinstance(a.op, ast.Or):
+        last = a.values[-1]
+        return _may_be_none(last)
+    if isinstance(a, ast.IfExp):
+        return _may_be_none(a.body) or _may_be_none(a.orelse)
+    if isinstance(a, ast.Constant):
+        return a.value is None
+    if isinstance(a, ast.Attribute) and a.attr == "token":
+        base = norm(a.value)
+        # Factor.token is Optional; OrderedOperator.token / loop tokens are real tokens
+        return "factor" in base or ".factors[" in base
+    return False
+
+
+RULES = [("C14.R1", r1), ("C14.R2", r2), ("C14.R3", r3), ("C14.R4", r4), ("C14.R5", r5), ("C14.R6", r6), ("C14.R7", r7), ("C14.R8", r8), ("C14.R9", r9)]
